@@ -1071,34 +1071,105 @@ def _atoms(test, truth):
     return frozenset({(ast.unparse(test), truth)})
 
 
+def _norm_atoms(conds, var):
+    out = set()
+    for text, truth in conds:
+        m = re.fullmatch(r'%s\.(\w+)' % re.escape(var or 'arg'), text)
+        out.add((m.group(1) if m else text, truth))
+    return frozenset(out)
+
+
+def _gen_counter(cls, fn, node):
+    """`sum(1 for a in L if c)` / `len([a for a in L if c])` / `sum(a.f for a in L)`-free forms: -> (classes, desc, doms) or None"""
+    if not (isinstance(node, ast.Call) and isinstance(node.func, ast.Name) and node.func.id in ('sum', 'len') and len(node.args) == 1):
+        return None
+    g = node.args[0]
+    if not isinstance(g, (ast.GeneratorExp, ast.ListComp)) or len(g.generators) != 1 or not isinstance(g.generators[0].target, ast.Name):
+        return None
+    if node.func.id == 'sum' and not (isinstance(g.elt, ast.Constant) and g.elt.value == 1):
+        return None
+    gen = g.generators[0]
+    conds = frozenset()
+    for t in gen.ifs:
+        conds |= _atoms(t, True)
+    norm = _norm_atoms(conds, gen.target.id)
+    dom = dict(cls=cls, fn=fn, iter=ast.unparse(gen.iter), conds=norm, members=frozenset(), line=node.lineno)
+    return {norm}, '%s.%s:%s' % (cls.name, fn.name, ast.unparse(node)[:60]), [dom]
+
+
+def _attr_counter(cls, attr, ix, depth, seen=None):
+    """the counters stored as `self.<attr> = <counter>` by any method of a class of the same module (nominal: the attribute may be copied
+    from a related node, `self.x = self.target.x`): -> (classes, desc, doms), None when a writer is not a counter"""
+    if ix is None or depth > 4:
+        return None
+    res, doms, desc, writers = set(), [], None, 0
+    for k in ix._all_classes(cls.module):
+        for m in k.methods.values():
+            if not m.args.args:
+                continue
+            me = m.args.args[0].arg
+            for n in walk_no_nested(m):
+                if not isinstance(n, ast.Assign):
+                    continue
+                if not any(isinstance(t, ast.Attribute) and t.attr == attr and isinstance(t.value, ast.Name) and t.value.id == me for t in n.targets):
+                    continue
+                v = n.value
+                if isinstance(v, ast.Attribute) and v.attr == attr:
+                    continue                      # copied from a related object: its writers are found by name
+                writers += 1
+                sub = counter_class(k, m, v.id, ix, depth + 1) if isinstance(v, ast.Name) else _gen_counter(k, m, v)
+                if sub is None:
+                    return None
+                res |= sub[0]
+                doms += sub[2]
+                desc = 'self.%s <- %s' % (attr, sub[1])
+    return (res, desc, doms) if writers else None
+
+
 def counter_class(cls, fn, name, ix, depth=0):
-    """the extra conditions of a counter: -> (frozenset of (attribute of the loop variable, truth), description) or None when `name` is not a counter"""
+    """the extra conditions of a counter: -> (set of frozenset of (attribute of the loop variable, truth), description, domains) or None when `name`
+    is not a counter.  A domain = dict(cls, fn, iter text, conds = all normalised guard atoms of the increment, members = lists the same loop files
+    the argument into under a subset of these guards, line)."""
     ctrs, appends = _counters(fn)
     if name in ctrs:
         incs = ctrs[name]
         res = set()
+        doms = []
         for conds, (it, var), line in incs:
             # conditions under which the same loop files the argument into a list: membership conditions of the argument lists, not part of the count's meaning
             member = None
+            mlists = set()
             for lst, cl in appends.items():
                 for c in cl:
                     if c <= conds:
                         member = c if member is None or len(c) > len(member) else member
+                        mlists.add(lst)
             extra = conds - (member or frozenset())
-            norm = set()
-            for text, truth in extra:
-                m = re.fullmatch(r'%s\.(\w+)' % re.escape(var or 'arg'), text)
-                norm.add((m.group(1) if m else text, truth))
-            res.add(frozenset(norm))
-        return res, '%s.%s:%s' % (cls.name, fn.name, name)
-    # a plain alias of another local: `k = n`
+            res.add(_norm_atoms(extra, var))
+            doms.append(dict(cls=cls, fn=fn, iter=it, conds=_norm_atoms(conds, var), members=frozenset(mlists), line=line))
+        return res, '%s.%s:%s' % (cls.name, fn.name, name), doms
+    # a plain alias of another local: `k = n`, of an attribute `k = self.n`, or a counting expression
     al = [n.value for n in walk_no_nested(fn) if isinstance(n, ast.Assign) and any(isinstance(t, ast.Name) and t.id == name for t in n.targets)]
     if len(al) == 1 and isinstance(al[0], ast.Name) and depth < 3:
         return counter_class(cls, fn, al[0].id, ix, depth + 1)
+    if len(al) == 1 and isinstance(al[0], ast.Attribute) and isinstance(al[0].value, (ast.Name, ast.Attribute)) and depth < 3 and ix is not None:
+        return _attr_counter(cls, al[0].attr, ix, depth + 1)
+    if len(al) == 1 and isinstance(al[0], ast.Call):
+        g = _gen_counter(cls, fn, al[0])
+        if g is not None:
+            return g
+        # a helper method returning a counter: k = self.helper(lst)
+        c0 = al[0]
+        if isinstance(c0.func, ast.Attribute) and isinstance(c0.func.value, ast.Name) and c0.func.value.id == 'self' and c0.func.attr in getattr(cls, 'methods', {}) and depth < 3:
+            h = cls.methods[c0.func.attr]
+            rets = [n.value for n in walk_no_nested(h) if isinstance(n, ast.Return) and n.value is not None]
+            if len(rets) == 1:
+                sub = counter_class(cls, h, rets[0].id, ix, depth + 1) if isinstance(rets[0], ast.Name) else _gen_counter(cls, h, rets[0])
+                return sub
     params = [a.arg for a in fn.args.args]
     if name in params and depth < 3:
         i = params.index(name) - 1
-        res, desc = set(), None
+        res, desc, doms = set(), None, []
         for other in cls.methods.values():
             for n in walk_no_nested(other):
                 if isinstance(n, ast.Call) and isinstance(n.func, ast.Attribute) and n.func.attr == fn.name and isinstance(n.func.value, ast.Name) and n.func.value.id == 'self':
@@ -1114,10 +1185,121 @@ def counter_class(cls, fn, name, ix, depth=0):
                             return None
                         res |= sub[0]
                         desc = sub[1]
+                        doms += sub[2]
+                    elif isinstance(arg, ast.Attribute) and ix is not None:
+                        sub = _attr_counter(cls, arg.attr, ix, depth + 1)
+                        if sub is None:
+                            return None
+                        res |= sub[0]
+                        desc = sub[1]
+                        doms += sub[2]
                     else:
                         return None
-        return (res, desc) if res else None
+        return (res, desc, doms) if res else None
     return None
+
+
+def _bound_to(cls, fn, pname, want_fn, want_name, depth=0):
+    """is parameter/local `pname` of fn the list `want_name` of want_fn (same local, or bound at every self.fn(...) call site)?  True/False/None(unknown)"""
+    if fn is want_fn:
+        if pname == want_name:
+            return True
+        al = [n.value for n in walk_no_nested(fn) if isinstance(n, ast.Assign) and any(isinstance(t, ast.Name) and t.id == pname for t in n.targets)]
+        if len(al) == 1 and isinstance(al[0], ast.Name) and depth < 4:
+            return _bound_to(cls, fn, al[0].id, want_fn, want_name, depth + 1)
+        return False
+    params = [a.arg for a in fn.args.args]
+    if pname not in params:
+        al = [n.value for n in walk_no_nested(fn) if isinstance(n, ast.Assign) and any(isinstance(t, ast.Name) and t.id == pname for t in n.targets)]
+        if len(al) == 1 and isinstance(al[0], ast.Name) and depth < 4:
+            return _bound_to(cls, fn, al[0].id, want_fn, want_name, depth + 1)
+        return False
+    if depth > 4:
+        return None
+    i = params.index(pname) - 1
+    verdicts = []
+    for other in cls.methods.values():
+        for n in walk_no_nested(other):
+            if isinstance(n, ast.Call) and isinstance(n.func, ast.Attribute) and n.func.attr == fn.name and isinstance(n.func.value, ast.Name) and n.func.value.id == 'self':
+                arg = n.args[i] if 0 <= i < len(n.args) else None
+                for k in n.keywords:
+                    if k.arg == pname:
+                        arg = k.value
+                if not isinstance(arg, ast.Name):
+                    verdicts.append(False)
+                else:
+                    verdicts.append(_bound_to(cls, other, arg.id, want_fn, want_name, depth + 1))
+    if not verdicts:
+        return None
+    if any(v is False for v in verdicts):
+        return False
+    return None if any(v is None for v in verdicts) else True
+
+
+def _table_domain(fn, iter_name):
+    """the lists the table's source list is made of (transitive closure over the local assignments of fn) and the membership conditions common to
+    every append to one of them: -> (component names, frozenset of normalised atoms, root iterable texts)"""
+    comp, todo = {iter_name}, [iter_name]
+    while todo:
+        nm = todo.pop()
+        for n in walk_no_nested(fn):
+            if isinstance(n, ast.Assign) and any(isinstance(t, ast.Name) and t.id == nm for t in n.targets):
+                for x in ast.walk(n.value):
+                    if isinstance(x, ast.Name) and x.id not in comp and not isinstance(n.value, ast.Constant):
+                        comp.add(x.id)
+                        todo.append(x.id)
+    common, roots = None, set()
+
+    def walk(stmts, conds, loop):
+        nonlocal common
+        for st in stmts:
+            if isinstance(st, ast.For):
+                walk(st.body, conds, (ast.unparse(st.iter), st.target.id if isinstance(st.target, ast.Name) else None))
+                walk(st.orelse, conds, loop)
+            elif isinstance(st, ast.If):
+                walk(st.body, conds | _atoms(st.test, True), loop)
+                walk(st.orelse, conds | _atoms(st.test, False), loop)
+                if st.body and isinstance(st.body[-1], ast.Continue) and not st.orelse:
+                    conds = conds | _atoms(st.test, False)
+            elif isinstance(st, ast.Expr) and isinstance(st.value, ast.Call) and isinstance(st.value.func, ast.Attribute) and st.value.func.attr == 'append' and loop is not None:
+                tgt = st.value.func.value
+                names = [tgt.id] if isinstance(tgt, ast.Name) else [x.id for x in ast.walk(tgt) if isinstance(x, ast.Name)]
+                if any(nm in comp for nm in names):
+                    # a conditional expression choosing between two component lists: its test is not a membership condition
+                    atoms = _norm_atoms(conds, loop[1])
+                    common = atoms if common is None else (common & atoms)
+                    roots.add(loop[0])
+            elif isinstance(st, (ast.With, ast.Try, ast.While)):
+                for fld in ('body', 'orelse', 'finalbody'):
+                    walk(getattr(st, fld, []) or [], conds, loop)
+    walk(fn.body, frozenset(), None)
+    return comp, (common or frozenset()), roots
+
+
+def domain_problem(cls, dom, table_fn, table_iter):
+    """None when the collection the counter iterates over is the table's source list (values[] has one slot per element of it); else a description"""
+    comp, member_conds, roots = _table_domain(table_fn, table_iter)
+    fn = dom['fn']
+    if dom['cls'] is cls or dom['fn'] is table_fn:
+        if fn is table_fn and (dom['members'] & comp):
+            return None                                   # counted while the argument is filed into a component list of the table's source
+        it = dom['iter']
+        if re.fullmatch(r'\w+', it):
+            b = _bound_to(cls, fn, it, table_fn, table_iter)
+            if b is True:
+                return None
+            if b is None:
+                raise AnalysisError('C24-POSONLY: cannot decide whether `%s` of %s.%s is the list values[] is laid out by (`%s` of %s)' % (it, cls.name, fn.name, table_iter, table_fn.name))
+    # a different collection: acceptable only when it is the table's root argument list filtered by (at least) the table's membership conditions
+    root_attr = lambda t: t.rsplit('.', 1)[-1]
+    missing = sorted(('' if v else 'not ') + t for t, v in member_conds if (t, v) not in dom['conds'])
+    if roots and root_attr(dom['iter']) in {root_attr(x) for x in roots} and not missing:
+        return None
+    what = '`%s` in %s.%s' % (dom['iter'], dom['cls'].name, fn.name)
+    if missing:
+        return ('it counts over %s without the conditions %s under which an argument gets a values[] slot and a place in `%s` (%s.%s): arguments outside that list (self / cls of an '
+                'extension-type method, non-generic arguments) are counted too' % (what, ' and '.join(missing), table_iter, cls.name, table_fn.name))
+    return 'it counts over %s, which is not the list `%s` of %s.%s that values[] and the keyword-name table are laid out by' % (what, table_iter, cls.name, table_fn.name)
 
 
 def rule_posonly(ctx, floor=3):
@@ -1130,6 +1312,7 @@ def rule_posonly(ctx, floor=3):
     WANT = frozenset({('pos_only', True)})
     n_sites = 0
     table_filter = None
+    pending = []
     for fname, fn in c.methods.items():
         src = ast.unparse(fn)
         emits_parse = '__Pyx_ParseKeywords(' in src
@@ -1167,7 +1350,7 @@ def rule_posonly(ctx, floor=3):
                 continue
             done.add(name)
             # only counters that talk about pos_only at all are offsets between the two index spaces
-            classes, desc = cc
+            classes, desc, doms = cc
             if not any(any(t == 'pos_only' for t, v in k) for k in classes):
                 continue
             if not emits_parse and not re.search(r'pykwdlist_cname\}\[[^\]]*\{%s\}' % re.escape(name), src.replace(' ', '')) and not re.search(r'pykwdlist_cname[^\n]*%s' % re.escape(name), src):
@@ -1175,6 +1358,7 @@ def rule_posonly(ctx, floor=3):
             key = 'Nodes.DefNodeWrapper.%s:offset:%s' % (fname, name)
             n_sites += 1
             r.inst(key, sample='%s counts %s (from %s)' % (key, sorted(map(sorted, classes)), desc))
+            pending.append((key, line, fname, name, desc, doms))
             bad = [k for k in classes if k != WANT]
             if bad:
                 extra = sorted('%s%s' % ('' if v else 'not ', t) for t, v in bad[0] if (t, v) not in WANT)
@@ -1188,6 +1372,19 @@ def rule_posonly(ctx, floor=3):
     if table_filter[0] != frozenset({('pos_only', False)}):
         r.violate(key, c.module.rel, table_filter[2], 'the keyword-name table is filtered by %s instead of `not arg.pos_only`: the offsets (number of positional-only parameters) no longer describe the '
                   'distance between a values[] index and its table index' % sorted(table_filter[0]))
+    # (c) the collection the counter runs over is the list values[] / the name table are laid out by
+    if re.fullmatch(r'\w+', table_filter[1]):
+        tfn = c.methods[table_filter[3]]
+        for key, line, fname, name, desc, doms in pending:
+            for dom in doms:
+                p = domain_problem(c, dom, tfn, table_filter[1])
+                if p:
+                    r.violate(key, c.module.rel, line, '%s uses `%s` (%s) to translate between values[] indices and keyword-table indices, but %s; for such a signature the offset differs from the '
+                              'number of positional-only slots of values[]: keyword values are stored into the slot of a neighbouring parameter, required parameters are reported missing, '
+                              'or the last slot is written past the array' % (fname, name, desc, p))
+                    break
+    else:
+        raise AnalysisError('DefNodeWrapper: the keyword-name table is filtered from `%s`, not from a local list' % table_filter[1])
     if not n_sites:
         raise AnalysisError('DefNodeWrapper: no positional-only offset counter found in the functions emitting __Pyx_ParseKeywords / indexing the name table')
     pc = ast.parse("class W:\n def a(self, args, code):\n  n = m = 0\n  lst = []\n  for arg in args:\n   if arg.kw_only:\n    continue\n   lst.append(arg)\n   if arg.pos_only:\n    n += 1\n    if not arg.default:\n     m += 1\n  self.b(m, code)\n"
@@ -1198,6 +1395,33 @@ def rule_posonly(ctx, floor=3):
         methods = {f.name: f for f in pc.body}
     cc = counter_class(FC, FC.methods['b'], 'k', None)
     r.positive_control(cc is not None and any(k != WANT for k in cc[0]), 'offset bound to a counter of the required positional-only parameters')
+    pc2 = ast.parse("class D:\n def __init__(self):\n  p = 0\n  for arg in self.args:\n   if arg.pos_only:\n    p += 1\n  self.npos = p\n"
+                    "class W:\n def a(self, args, code):\n  pos = []\n  for arg in args:\n   if not arg.is_generic:\n    continue\n   if arg.is_self_arg:\n    continue\n   pos.append(arg)\n"
+                    "  all_args = tuple(pos)\n  names = [arg for arg in all_args if not arg.pos_only]\n  self.b(all_args, code)\n"
+                    " def b(self, all_args, code):\n  k = self.npos\n  g = 0\n  for arg in all_args:\n   if arg.pos_only:\n    g += 1\n  code.putln(f'__Pyx_ParseKeywords(values + {k} + {g})')\n")
+
+    class FM:
+        pass
+
+    class FD:
+        name = 'D'
+        methods = {f.name: f for f in pc2.body[0].body}
+        module = FM
+
+    class FW:
+        name = 'W'
+        methods = {f.name: f for f in pc2.body[1].body}
+        module = FM
+
+    class FIX:
+        @staticmethod
+        def _all_classes(m):
+            return [FD, FW]
+    bad_c = counter_class(FW, FW.methods['b'], 'k', FIX)
+    good_c = counter_class(FW, FW.methods['b'], 'g', FIX)
+    ok = bool(bad_c and good_c and bad_c[0] == {WANT} and all(domain_problem(FW, d, FW.methods['a'], 'all_args') for d in bad_c[2])
+              and not any(domain_problem(FW, d, FW.methods['a'], 'all_args') for d in good_c[2]))
+    r.positive_control(ok, 'offset taken from an attribute that counts pos_only over the unfiltered self.args (fires); counter over the all_args parameter (passes)')
     return r
 
 
